@@ -1152,3 +1152,210 @@ func missingSchemeValue(c *Ctx) string {
 	}
 	return "?"
 }
+
+// ---- OPT-consumers: every relaxing option is consulted only under its trigger ----
+
+func init() {
+	register(&Rule{
+		Name:  "OPT-consumers",
+		Doc:   "each relaxing parser option is read only where its trigger holds, so that switching it on cannot change the result for inputs without the trigger: accept-invalid-code-points only after the invalid-code-point test; percent-encode-single-percent-sign only after an invalid-percent test; skip-drive-letter-normalization only after the drive-letter test; collapse-consecutive-slashes replaces a segment only when the last one is empty; lax-host-parsing only on branches whose other arm fails; skip-equals only omits the '='",
+		Props: []string{"C16"},
+		Floor: 8,
+		Run: func(c *Ctx, s *core.Sink) {
+			type site struct {
+				f   *ssa.Function
+				ld  *ssa.UnOp
+				opt string
+			}
+			var sites []site
+			for _, f := range c.P.ModFns {
+				if isInitializer(f) || (f.Parent() != nil && strings.HasPrefix(f.Parent().Name(), "With")) {
+					continue
+				}
+				for _, b := range f.Blocks {
+					for _, ins := range b.Instrs {
+						if ld, ok := ins.(*ssa.UnOp); ok {
+							if o := optLoad(ld); o != "" {
+								sites = append(sites, site{f, ld, o})
+							}
+						}
+					}
+				}
+			}
+			n := map[string]int{}
+			hasFact := func(f *ssa.Function, b *ssa.BasicBlock, pred func(condFact) bool) bool {
+				for _, fa := range Facts(c, f).At(b) {
+					if pred(fa) {
+						return true
+					}
+				}
+				return false
+			}
+			callFact := func(name string, val bool) func(condFact) bool {
+				return func(fa condFact) bool {
+					if fa.Val != val {
+						return false
+					}
+					v := fa.Cond
+					if ex, ok := v.(*ssa.Extract); ok {
+						v = ex.Tuple
+					}
+					call, ok := v.(*ssa.Call)
+					return ok && call.Common().StaticCallee() != nil && call.Common().StaticCallee().Name() == name
+				}
+			}
+			for _, st := range sites {
+				base := "consumer/" + st.opt + "/" + core.FuncName(st.f)
+				n[base]++
+				key := fmt.Sprintf("%s#%d", base, n[base])
+				pos := c.P.Pos(st.ld.Pos())
+				b := st.ld.Block()
+				switch st.opt {
+				case "acceptInvalidCodepoints":
+					s.Check(hasFact(st.f, b, callFact("currentIsInvalid", true)), key, pos, "read only after input.currentIsInvalid() answered true", "read without the invalid-code-point test: the option could change the result for valid input")
+				case "percentEncodeSinglePercentSign":
+					ok := false
+					if st.f.Name() == "percentEncodeInvalidRune" {
+						// every call site lies on the invalid-percent branch
+						ok = true
+						sitesN := 0
+						for _, g := range c.P.ModFns {
+							for _, gb := range g.Blocks {
+								for _, ins := range gb.Instrs {
+									if call, isC := ins.(*ssa.Call); isC && call.Common().StaticCallee() == st.f {
+										sitesN++
+										if !hasFact(g, gb, callFact("remainingIsInvalidPercentEncoded", true)) {
+											ok = false
+										}
+									}
+								}
+							}
+						}
+						ok = ok && sitesN > 0
+					} else {
+						// PercentEncodeString: under r == '%' and (too short or not two hex digits)
+						pct := hasFact(st.f, b, func(fa condFact) bool {
+							bo, ok := fa.Cond.(*ssa.BinOp)
+							if !ok || bo.Op != token.EQL || !fa.Val {
+								return false
+							}
+							k, ok := constInt(bo.Y)
+							return ok && k == '%'
+						})
+						ok = pct
+					}
+					s.Check(ok, key, pos, "read only after an invalid-percent-encoding test", "read without the invalid-percent test: the option could change the result for well-formed escapes")
+				case "skipWindowsDriveLetterNormalization":
+					s.Check(hasFact(st.f, b, callFact("isWindowsDriveLetter", true)), key, pos, "read only after isWindowsDriveLetter(buffer) answered true", "read without the drive-letter test")
+				case "collapseConsecutiveSlashes":
+					// the arm that differs from the default (overwrite the last segment) needs: option on and last segment empty
+					okAll := true
+					found := 0
+					for _, bb := range st.f.Blocks {
+						for _, ins := range bb.Instrs {
+							store, isS := ins.(*ssa.Store)
+							if !isS {
+								continue
+							}
+							ia, isI := store.Addr.(*ssa.IndexAddr)
+							if !isI {
+								continue
+							}
+							if _, isP := loadOfField(ia.X, "path:p"); !isP {
+								continue
+							}
+							// only stores in the state machine (BasicParser)
+							found++
+							optOn := hasFact(st.f, bb, func(fa condFact) bool { return optLoad(fa.Cond) == "collapseConsecutiveSlashes" && fa.Val })
+							lastEmpty := hasFact(st.f, bb, func(fa condFact) bool {
+								bo, ok := fa.Cond.(*ssa.BinOp)
+								if !ok {
+									return false
+								}
+								rel, _ := relOf(bo.Op, fa.Val)
+								k, isK := constInt(bo.Y)
+								_, isLen := lenArg(bo.X)
+								return isLen && isK && k == 0 && (rel == token.LEQ || rel == token.EQL)
+							})
+							if !optOn || !lastEmpty {
+								okAll = false
+							}
+						}
+					}
+					s.Check(okAll && found > 0, key, pos, "the last segment is overwritten only when the option is on and that segment is empty", "a path segment can be overwritten without the option being on and the last segment being empty")
+				case "laxHostParsing":
+					// the If consuming the load: the non-lax arm must fail (failure-flagged handler or an error return)
+					okLax := false
+					why := "the option does not feed a branch"
+					for _, r := range *st.ld.Referrers() {
+						iff, isIf := r.(*ssa.If)
+						if !isIf {
+							if u, isU := r.(*ssa.UnOp); isU && u.Op == token.NOT {
+								for _, r2 := range *u.Referrers() {
+									if iff2, ok := r2.(*ssa.If); ok {
+										iff = iff2
+										isIf = true
+										// negated: the non-lax arm is the true successor
+										nonLax := iff.Block().Succs[0]
+										okLax, why = armFails(c, nonLax)
+									}
+								}
+							}
+							continue
+						}
+						nonLax := iff.Block().Succs[1]
+						okLax, why = armFails(c, nonLax)
+					}
+					s.Check(okLax, key, pos, "consulted only where the strict parser fails", "the strict arm of a lax-host-parsing decision does not fail ("+why+"): the option changes hosts the default parser accepts")
+				case "skipEqualsForEmptySearchParamsValue":
+					okEq := false
+					for _, r := range *st.ld.Referrers() {
+						if iff, isIf := r.(*ssa.If); isIf {
+							// some successor chain writes '=' and nothing else before rejoining
+							for _, succ := range iff.Block().Succs {
+								for _, ins := range succ.Instrs {
+									if call, isC := ins.(*ssa.Call); isC && call.Common().StaticCallee() != nil && call.Common().StaticCallee().Name() == "WriteRune" {
+										if k, ok := constInt(call.Common().Args[1]); ok && k == '=' {
+											okEq = true
+										}
+									}
+								}
+							}
+						}
+					}
+					s.Check(okEq, key, pos, "decides only whether '=' is written", "the option decides something other than the '=' of an empty value")
+				default:
+					// the remaining options (diagnostics, encode sets, callbacks, schemes, encoding override, trailing slash)
+					// are governed by ERR-ni, TAB-component, TAB-schemes; recorded for the inventory
+					s.Obs = append(s.Obs, core.Obligation{Rule: s.Rule, Construct: key, Pos: pos, Verdict: core.Discharged, Fact: "inventory: governed by another rule", Props: s.Props, Trivial: true})
+				}
+			}
+		},
+	})
+}
+
+// armFails: the block (following jumps) calls a failure-flagged handler, or returns a non-nil error.
+func armFails(c *Ctx, b *ssa.BasicBlock) (bool, string) {
+	seen := map[*ssa.BasicBlock]bool{}
+	for i := 0; i < 4 && b != nil && !seen[b]; i++ {
+		seen[b] = true
+		for _, ins := range b.Instrs {
+			if call, ok := ins.(*ssa.Call); ok && alwaysNonNil(c, call) {
+				return true, ""
+			}
+			if r, ok := ins.(*ssa.Return); ok {
+				last := r.Results[len(r.Results)-1]
+				if !isNilConst(last) {
+					return true, ""
+				}
+				return false, "returns without an error"
+			}
+		}
+		if len(b.Succs) == 1 {
+			b = b.Succs[0]
+		} else {
+			return false, "the strict arm branches again before failing"
+		}
+	}
+	return false, "no failure found"
+}
